@@ -3,6 +3,7 @@
 package main
 
 import (
+	"syscall"
 	"bytes"
 	"context"
 	"crypto/sha256"
@@ -143,6 +144,29 @@ func memfdCase(c map[string]any, env container.Environment) map[string]any {
 		f.Write(data)
 		f.Seek(0, 0)
 		rd, cleanup = f, func() { f.Close(); os.Remove(f.Name()) }
+	case "file_off", "file_read":
+		// the supplied bytes are what is left of a file whose beginning (a header) was already consumed
+		hdr := make([]byte, 1+size%5000)
+		f, _ := os.CreateTemp(os.Getenv("VERIF_SCRATCH"), "src")
+		f.Write(hdr)
+		f.Write(data)
+		if c["reader"] == "file_off" {
+			f.Seek(int64(len(hdr)), 0)
+		} else {
+			f.Seek(0, 0)
+			io.ReadFull(f, hdr)
+		}
+		rd, cleanup = f, func() { f.Close(); os.Remove(f.Name()) }
+	case "bytes_off":
+		b := bytes.NewReader(append(make([]byte, 7), data...))
+		b.Seek(7, 0)
+		rd = b
+	case "section":
+		f, _ := os.CreateTemp(os.Getenv("VERIF_SCRATCH"), "src")
+		f.Write(make([]byte, 11))
+		f.Write(data)
+		f.Write([]byte{1, 2, 3})
+		rd, cleanup = io.NewSectionReader(f, 11, int64(len(data))), func() { f.Close(); os.Remove(f.Name()) }
 	case "pipe":
 		r, w, _ := os.Pipe()
 		go func() { w.Write(data); w.Close() }()
@@ -244,6 +268,13 @@ func main() {
 		// ---- reset history
 		mounts := strs(c["mounts"]) // tmpfs targets
 		var bindSrc string
+		if n := hx.Int(c["nofile"]); n > 0 {
+			// the container init inherits a small descriptor limit from the host process
+			var old syscall.Rlimit
+			syscall.Getrlimit(syscall.RLIMIT_NOFILE, &old)
+			syscall.Setrlimit(syscall.RLIMIT_NOFILE, &syscall.Rlimit{Cur: uint64(n), Max: old.Max})
+			defer syscall.Setrlimit(syscall.RLIMIT_NOFILE, &old)
+		}
 		env, err := hx.NewEnvWith(scratch, nil, func(b *container.Builder) {
 			mb := mount.NewDefaultBuilder().WithBind(hx.BinDir(), "vb", true)
 			for _, m := range mounts {
